@@ -58,6 +58,13 @@ def _gate_makers(rng):
            cirq.ControlledGate(cirq.Y ** e), cirq.ms(0.3), cirq.CZPowGate(exponent=e, global_shift=0.25)]
     three = [cirq.CCZ, cirq.CCX, cirq.CSWAP, cirq.CCZ ** e, cirq.MatrixGate(cirq.testing.random_unitary(8, random_state=rng.randrange(10 ** 6))), cirq.ControlledGate(cirq.ISWAP ** 0.5),
              cirq.QuantumFourierTransformGate(3)]
+    # three-qubit matrices with product structure (a two-qubit unitary on any pair next to a one-qubit one): the synthesis routes behind
+    # MatrixGate._decompose_ have special cases for the degenerate cosine-sine angles these produce
+    ru4, ru2 = cirq.testing.random_unitary(4, random_state=rng.randrange(10 ** 6)), cirq.testing.random_unitary(2, random_state=rng.randrange(10 ** 6))
+    swap12 = np.kron(np.eye(2), cirq.unitary(cirq.SWAP))
+    structured = [np.kron(ru4, ru2), np.kron(ru2, ru4), swap12 @ np.kron(ru4, ru2) @ swap12, np.kron(cirq.unitary(cirq.CNOT), np.eye(2)), np.kron(ru4, np.eye(2)),
+                  swap12 @ np.kron(cirq.unitary(cirq.ISWAP ** 0.3), cirq.unitary(cirq.T)) @ swap12, np.kron(cirq.unitary(cirq.ControlledGate(cirq.ry(0.7))), cirq.unitary(cirq.H))]
+    three += [cirq.MatrixGate(rng.choice(structured)), cirq.MatrixGate(rng.choice(structured))]
     return one, two, three
 
 
@@ -71,6 +78,17 @@ def _rand_circuit(rng, n, depth, allow3=True, tags=False):
         pool = one + (two * 2 if n >= 2 else []) + (three if (n >= 3 and allow3) else [])
         g = rng.choice(pool)
         op = g.on(*rng.sample(qs, cirq.num_qubits(g)))
+        if rng.random() < 0.12 and cirq.num_qubits(g) <= 2 and cirq.has_unitary(op):
+            # the same operation given as a sub-circuit: plain, repeated (also inverted), or written on other qubits and mapped
+            sub = cirq.CircuitOperation(cirq.FrozenCircuit(op))
+            r = rng.random()
+            if r < 0.4:
+                op = sub.repeat(rng.choice([2, 3, -1]))
+            elif r < 0.7 and n >= len(op.qubits) + 1:
+                target = rng.sample(qs, len(op.qubits))
+                op = sub.with_qubit_mapping(dict(zip(op.qubits, target))) if set(target) != set(op.qubits) or True else sub
+            else:
+                op = sub
         if tags and rng.random() < 0.2:
             op = op.with_tags("no_compile")
         ops.append(op)
@@ -144,7 +162,24 @@ def standin_compile(tier, seed):
                 R.bad(f"optimize_for_target_gateset raised {type(ex).__name__}: {str(ex)[:120]}", target=name, circuit=c)
                 continue
             _check_compiled(R, name, gs, c, out, qs)
-    return R.out(F + "/optimize_for_target_gateset.py:optimize_for_target_gateset", "compile", f"{per} seeded circuits (1-4 qubits, <= 5 operations of ~40 gate makers, tags, re-compilation) x 17 target gatesets / option sets")
+    # operations given as sub-circuits (repeated, inverted, written on other qubits and mapped, a single wrapped gate) next to a two-qubit gate: every target
+    a, b, c3 = cirq.LineQubit.range(3)
+    wrap = lambda *ops_, **kw: cirq.CircuitOperation(cirq.FrozenCircuit(*ops_), **kw)
+    subs = [wrap(cirq.X(a) ** 0.5, repetitions=3), wrap(cirq.Y(c3) ** 0.5, qubit_map={c3: a}), wrap(cirq.H(a)), wrap(cirq.H(a), repetitions=2), wrap(cirq.T(b), repetitions=-1),
+            wrap(cirq.CZ(a, c3) ** 0.5, qubit_map={c3: b}, repetitions=2), wrap(cirq.X(a) ** 0.25, cirq.Z(a) ** 0.5, repetitions=2)]
+    for name, gs in _targets():
+        if name == "GoogleCZTargetGateset(eject_paulis=True)":
+            continue  # (known finding: its output is not native for other reasons)
+        for sub, shape in itertools.product(subs, ("after", "between", "alone")):
+            circ = cirq.Circuit({"after": [cirq.XX(a, b) ** 0.3, sub], "between": [cirq.XX(a, b) ** 0.3, sub, cirq.CZ(a, b)], "alone": [sub]}[shape])
+            R.cases += 1
+            try:
+                out = cirq.optimize_for_target_gateset(circ, gateset=gs)
+            except Exception as ex:
+                R.bad(f"optimize_for_target_gateset raised {type(ex).__name__}: {str(ex)[:120]}", target=name, circuit=circ)
+                continue
+            _check_compiled(R, name, gs, circ, out, sorted(circ.all_qubits()))
+    return R.out(F + "/optimize_for_target_gateset.py:optimize_for_target_gateset", "compile", f"{per} seeded circuits (1-4 qubits, <= 5 operations of ~40 gate makers incl. product-structured three-qubit matrices, tags, re-compilation) and 7 sub-circuit operation forms x 17 target gatesets / option sets")
 standin_compile.prop = "C07"
 
 
